@@ -62,6 +62,13 @@ mod verif_overlap {
         idx
     }
 
+    /// element-wise array inequality (avoids memcmp's byte loop, which would need unwind 8N+1)
+    fn differ<const N: usize>(a: [usize; N], b: [usize; N]) -> bool {
+        let mut d = false;
+        for i in 0..N { d = d || a[i] != b[i]; }
+        d
+    }
+
     fn off<const N: usize>(idx: [usize; N], strides: [usize; N]) -> usize {
         let mut o = 0;
         for i in 0..N { o += idx[i] * strides[i]; }
@@ -80,7 +87,7 @@ mod verif_overlap {
                 if !may_have_internal_overlap(shape, strides) {
                     let i = any_index(shape);
                     let j = any_index(shape);
-                    if i != j {
+                    if differ(i, j) {
                         assert!(off(i, strides) != off(j, strides), "accepted layout aliases two indices");
                         kani::cover!(true);
                     }
@@ -91,6 +98,38 @@ mod verif_overlap {
     soundness!(accepted_layout_is_injective_1, 1);
     soundness!(accepted_layout_is_injective_2, 2);
     soundness!(accepted_layout_is_injective_3, 3);
+
+    /// Soundness for CONCRETE small shapes with symbolic strides: with the sizes fixed, the
+    /// `size != 1` filter and the sort inside may_have_internal_overlap run on concrete lengths, so
+    /// the real std sort is executed (no stub) and CBMC finishes quickly. Shapes cover equal sizes,
+    /// size-1 dims in every position and non-square cases.
+    macro_rules! soundness_concrete {
+        ($name:ident, $n:expr, $shape:expr) => {
+            #[kani::proof]
+            #[kani::unwind(12)]
+            pub fn $name() {
+                let shape: [usize; $n] = $shape;
+                let mut strides = [0usize; $n];
+                for i in 0..$n { let st: u8 = kani::any(); strides[i] = st as usize; }
+                if !may_have_internal_overlap(shape, strides) {
+                    let i = any_index(shape);
+                    let j = any_index(shape);
+                    if differ(i, j) {
+                        assert!(off(i, strides) != off(j, strides), "accepted layout aliases two indices");
+                        kani::cover!(true);
+                    }
+                }
+            }
+        };
+    }
+    soundness_concrete!(accepted_is_injective_shape_2x2, 2, [2, 2]);
+    soundness_concrete!(accepted_is_injective_shape_3x2, 2, [3, 2]);
+    soundness_concrete!(accepted_is_injective_shape_2x3, 2, [2, 3]);
+    soundness_concrete!(accepted_is_injective_shape_1x3, 2, [1, 3]);
+    soundness_concrete!(accepted_is_injective_shape_3x1, 2, [3, 1]);
+    soundness_concrete!(accepted_is_injective_shape_2x2x3, 3, [2, 2, 3]);
+    soundness_concrete!(accepted_is_injective_shape_3x1x2, 3, [3, 1, 2]);
+    soundness_concrete!(accepted_is_injective_shape_2x3x2, 3, [2, 3, 2]);
 
     /// Full-width rank 1/2: if the check accepts and the offsets do not wrap (max offset over
     /// the integers fits usize) then offsets computed over the integers are distinct.
@@ -109,7 +148,7 @@ mod verif_overlap {
             let i: [usize; 2] = kani::any();
             let j: [usize; 2] = kani::any();
             kani::assume(i[0] < shape[0] && i[1] < shape[1] && j[0] < shape[0] && j[1] < shape[1]);
-            if i != j {
+            if differ(i, j) {
                 // cannot wrap: each index is < shape, so each product is <= the assumed maximum
                 let oi = i[0].wrapping_mul(strides[0]).wrapping_add(i[1].wrapping_mul(strides[1]));
                 let oj = j[0].wrapping_mul(strides[0]).wrapping_add(j[1].wrapping_mul(strides[1]));
